@@ -83,7 +83,10 @@ def warm_start(
 
         # Item assignment casts to the declared type of the variable
         # (alive and active come back from file as small integers)
-        state[var] = values
+        if var in state.dtypes:
+            state[var] = values
+        else:
+            state.variables[var] = values
 
     # # Instance variables with default
     # if "alive" not in wvars:
